@@ -11,13 +11,21 @@ From Coq Require Import String Ascii.
 From Verif Require Import Base Value Formatter FormatSpec.
 Open Scope Z_scope.
 
-(* obs: Some text (runes) = the call returned it, None = it panicked.
+(* obs: OText text (runes) = the call returned it, OPanic = it panicked, OCrash = the process
+   died or the call did not return (never produced by the model: always a mismatch).
    rt: the REAL round trip ParseSource(text) observed by the harness: 0 = parsed, 1 = not
    attempted (the call panicked / not a collection), 2 = ParseSource panicked, 5 = it did not
    return; rteq = CompareValues(original, parsed) under the any-collator; rttxt = formatting the
    parsed value gives the same text (lines compared as a multiset when the value holds a Map
    with two or more entries). *)
-Inductive fcall := FCall (v : val) (obs : option (list Z)) (rt : Z) (rteq rttxt : bool).
+(* compact notation for texts and byte strings in case files: runs of printable ASCII (and the
+   newline) as Coq strings, everything else as numbers *)
+Inductive seg := S_ (s : string) | U_ (l : list Z).
+Definition segs (l : list seg) : list Z :=
+  flat_map (fun x => match x with S_ s => s2z s | U_ l => l end) l.
+
+Inductive fobs := OText (t : list Z) | OPanic | OCrash.
+Inductive fcall := FCall (v : val) (obs : fobs) (rt : Z) (rteq rttxt : bool).
 Record fcase := { fc_max : nat; fc_ftext : list (Z * list Z); fc_print : list (Z * bool); fc_calls : list fcall }.
 
 Definition ft_of (tbl : list (Z * list Z)) (bits : Z) : list Z :=
@@ -28,18 +36,18 @@ Definition pr_of (tbl : list (Z * bool)) (r : Z) : bool :=
 Definition model_out (c : fcase) (v : val) : out (list Z) :=
   format0 (ft_of (fc_ftext c)) (pr_of (fc_print c)) (fc_max c) v.
 
-Definition text_ok (m : out (list Z)) (obs : option (list Z)) : bool :=
+Definition text_ok (m : out (list Z)) (obs : fobs) : bool :=
   match m, obs with
-  | Ret t, Some o => list_eqb Z.eqb t o
-  | Panic, None => true
+  | Ret t, OText o => list_eqb Z.eqb t o
+  | Panic, OPanic => true
   | _, _ => false
   end.
 
 (* the round trip the property demands of the real code, by class of the value *)
-Definition rt_ok (mx : nat) (v : val) (obs : option (list Z)) (rt : Z) (rteq rttxt : bool) : bool :=
+Definition rt_ok (mx : nat) (v : val) (obs : fobs) (rt : Z) (rteq rttxt : bool) : bool :=
   match obs with
-  | None => true
-  | Some _ =>
+  | OPanic | OCrash => true
+  | OText _ =>
     match rt_class mx v with
     | O => true
     | S O => (rt =? 0) && rttxt
@@ -89,7 +97,7 @@ Definition show_char (z : Z) : ascii :=
   else if z =? 10 then "/"%char else "?"%char.
 Definition show (t : list Z) : string := string_of_list_ascii (map show_char t).
 Definition show_out (o : out (list Z)) : string :=
-  match o with Ret t => show t | Panic => "<panic>" | Hang => "<hang>" end.
+  match o with Ret t => show t | Panic => "<panic>"%string | Hang => "<hang>"%string end.
 Fixpoint first_diff (a b : list Z) (i : nat) : option nat :=
   match a, b with
   | [], [] => None
@@ -103,10 +111,11 @@ Definition call_report (c : fcase) (i : nat) :=
   match nth_error (fc_calls c) i with
   | Some (FCall v obs rt rteq rttxt as k) =>
       let m := model_out c v in
-      Some (show_out m, option_map show obs, m,
-            match m, obs with Ret t, Some o => first_diff t o 0 | _, _ => None end,
+      Some (show_out m, match obs with OText o => show o | OPanic => "<panic>"%string | OCrash => "<crash>"%string end, m,
+            match m, obs with Ret t, OText o => first_diff t o 0 | _, _ => None end,
             rt_class (fc_max c) v, (rt, rteq, rttxt), call_code c k)
   | None => None
   end.
 Definition oracle_report (c : fcase) (i : nat) :=
-  option_map (fun p => (fst p, show (snd p), g_shape (snd p))) (nth_error (fc_ftext c) (i - 1000)).
+  if (i <? 1000)%nat then None
+  else option_map (fun p => (fst p, show (snd p), g_shape (snd p))) (nth_error (fc_ftext c) (i - 1000)).
